@@ -552,6 +552,17 @@ func (g *genCtx) genOutputLeaf(label string) *Val {
 			return v
 		}
 	}
+	if g.p.Tags && rapid.IntRange(0, 11).Draw(t, label+".objlist?") == 0 {
+		// a list literal of object literals that differ only in an optional field (the wider one
+		// first: the item type is taken from the first item, the others must fit into it)
+		if objs := g.pick("obj", false); len(objs) > 0 {
+			opt := &Val{K: "waitopt", Expr: g.choose(objs, label+".objlist.src").expr}
+			wide := MapVal([]string{"a", "o"}, []*Val{LitVal(IntLit(rapid.Int64Range(0, 9).Draw(t, label+".objlist.a0"))), opt})
+			narrow := MapVal([]string{"a"}, []*Val{LitVal(IntLit(rapid.Int64Range(0, 9).Draw(t, label+".objlist.a1")))})
+			g.label("output:list-of-objects-differing-in-an-optional-field")
+			return &Val{K: "list", Vals: []*Val{wide, narrow}}
+		}
+	}
 	if rapid.IntRange(0, 9).Draw(t, label+".stage?") == 0 {
 		if c := g.pick("stage", false); len(c) > 0 {
 			g.label("ref:whole-stage")
